@@ -359,6 +359,26 @@ impl IsaGen {
                 }
             }
         }
+        if crate::engine::gen_version() >= 2 && t.chance(1, 4) {
+            // v2: a conditional production with a decidable condition whose arms have one size but different
+            // dependencies: one arm only reads the operand, the other reads the position (or a global symbol)
+            let k1 = *t.pick(&[4u64, 8, 16, 128]);
+            let dep = match t.draw(3) {
+                0 => var("$"),
+                1 => E::Bin(BinOp::Add, Box::new(var("$")), Box::new(var("p0"))),
+                _ => E::Bin(BinOp::Sub, Box::new(var("p0")), Box::new(var("$"))),
+            };
+            let plain = concat_all(vec![sized_lit(0x5, 4), E::SliceShort(Box::new(var("p0")), Box::new(lit_of(12)))]);
+            let reads_pos = concat_all(vec![sized_lit(0x6, 4), E::SliceShort(Box::new(dep), Box::new(lit_of(12)))]);
+            let cond = E::Bin(if t.flip() { BinOp::Lt } else { BinOp::Ge }, Box::new(var("p0")), Box::new(lit_of(k1)));
+            let (x, y) = if t.flip() { (plain, reads_pos) } else { (reads_pos, plain) };
+            rules.push(Rule {
+                mnemonic: "tq".to_string(),
+                ops: vec![PatOp { wrap: Wrap::None, op: POp::Param { name: "p0".into(), ty: PType::Untyped } }],
+                prod: E::Tern(Box::new(cond), Box::new(x), Box::new(y)),
+                size: 16,
+            });
+        }
         // partition into blocks
         let mut blocks: Vec<RuleBlock> = (0..nblocks).map(|b| RuleBlock { name: if t.flip() { Some(format!("blk{}", b)) } else { None }, rules: vec![] }).collect();
         for (i, r) in rules.into_iter().enumerate() {
